@@ -30,6 +30,12 @@ Values   literal name / attribute queries compare by VALUE whatever the provenan
          instances (bytes are a different value), every query literal once as interned source literal and once built
          at run time; all six combinations must return the same nodes by position, and the model's.  Each pipeline is
          run several times interleaved with other roots=True queries on the same objects (per-call de-duplication).
+Re-parent histories query -> re-parent -> query: standalone trees are queried with roots=True (module-level select over
+         parentless tops, containers built with set_parents=False as Entry.choose() makes them, Result.roots, every
+         node's .root read), attached below a new top as ConfigCombiner does (Entry(children=[..]); two queried
+         trees under one top; at depth 2; nested), and queried again (roots on/off, .roots, .parents): results must be
+         those of an identically built forest never queried before the attachment, and the model's, which is given
+         the tree as it is at each query.  Tops carry the names of their descendants (top AND descendant match).
 Values   operation HISTORIES with shared sub-expressions (exec_prog / gen_history, driver request `prog`): a
          combination b nested to depth >= 3 is built and compiled, then used — the same object — as left and right
          operand of & and |, in chains ((b & c) & d, continued from derived objects), under ~, inside
@@ -250,6 +256,8 @@ def start_tok(start, docs):
     a = start.split()
     if a[0] == "node":
         return "node " + node_paths(docs)[int(a[1])]
+    if a[0] == "choose":        # a container built with set_parents=False queries its parentless children: select(query, tops)
+        return "fn"
     return start
 
 
@@ -477,6 +485,8 @@ def run_impl(case, tops=None, ident=None, conf=None, env=None):
         cur = [e for e in (_all_entries(tops)) if ident[id(e)] == int(start[1])][0]
     elif start[0] == "res":
         cur = Result(children=list(tops))
+    elif start[0] == "choose":     # as Entry.choose() builds its containers: the children keep their own (absent) parents
+        cur = Entry(children=list(tops), set_parents=False)
     elif start[0] == "conf":       # a ConfigComponent (parsed document); the model sees `doc 0`
         cur = conf
     else:
@@ -694,7 +704,7 @@ def oracle_select(chk, case, impl, plain_ids):
         kind, cur = "entry", [int(start[1])]
     elif start[0] == "res":
         kind, cur = "result", [t["id"] for t in case["docs"]]
-    else:
+    else:                           # "fn" and "choose": the parentless tops themselves are the candidates
         kind, cur = "fn", [t["id"] for t in case["docs"]]
     n = len(case["steps"])
     taint = False     # an earlier step was handed nested parents / nested first-level matches (known finding: its order is parent-major)
@@ -1714,6 +1724,106 @@ def prov_pipes(case):
     return [{"start": p["start"], "docs": case["docs"], "steps": p["steps"], "via_find": p["via_find"]} for p in case["pipes"]]
 
 
+# --------------------------------------------------------------------------- histories: query -> re-parent -> query
+#
+# `.root` is a function of the CURRENT parent chain.  Standalone trees are queried with roots=True (module-level
+# select over the parentless tops, containers built with set_parents=False, Result.roots, every node's .root is
+# read), then attached below a new top the way ConfigCombiner does (Entry(children=[...]) re-parents; two queried
+# trees under one top; attaching at depth 2), then queried again: every result must map to the NEW ultimate
+# ancestor, exactly as on an identically built forest that was never queried before being attached, and as in the
+# model, which is given the tree as it is at each query.  Top names are drawn from the names of their descendants:
+# a top matches AND a descendant matches, the roots must be de-duplicated.
+
+def gen_reparent_case(rng):
+    names = rng.sample(sorted(set(NAMES)), 2)
+    nid = [0]
+
+    def node(depth):
+        t = {"id": nid[0], "name": rng.choice(names), "attrs": [gen_val(rng) for _ in range(rng.choice([0, 1, 1]))], "children": []}
+        nid[0] += 1
+        for _ in range(rng.choice([1, 2, 3]) if depth == 0 else (0 if depth >= 3 else rng.choice([0, 1, 2]))):
+            t["children"].append(node(depth + 1))
+        return t
+    trees = [node(0) for _ in range(rng.choice([1, 2, 2, 3]))]
+
+    def sel(roots=None):
+        qs = [["qn", ["lit", rng.choice(names)] if rng.random() < 0.85 else ["any"]] for _ in range(rng.choice([1, 1, 1, 2]))]
+        return ["S", rng.random() < 0.8, rng.random() < 0.75 if roots is None else roots, qs]
+
+    def pipe(starts, tail_ok=True):
+        start = rng.choice(starts)
+        st = sel()
+        steps = [st]
+        if not st[2] and tail_ok and rng.random() < 0.6:
+            steps.append(rng.choice([["R"], ["P"], ["R"]]))
+        return {"start": start, "steps": steps, "via_find": rng.random() < 0.5}
+    pre = [pipe(["fn", "fn", "choose", "res"]) for _ in range(rng.choice([1, 2, 3]))]
+    pre.append({"start": rng.choice(["fn", "choose"]), "via_find": False,           # a top AND its descendants match
+                "steps": [["S", True, True, [["qn", ["lit", trees[0]["name"]]]]]]})
+    mode = rng.choice(["top", "top", "depth2", "nested"])
+    new = lambda name, kids: {"id": None, "name": name, "attrs": [], "children": kids}
+    if mode == "top":
+        combined = new(None if rng.random() < 0.6 else rng.choice(names), list(trees))
+    elif mode == "depth2":
+        combined = new(None, [new(rng.choice(names + ["w"]), [t]) if rng.random() < 0.7 else t for t in trees])
+    else:
+        combined = new(None, [new("w", [new(rng.choice(names), list(trees))])])
+
+    def number(t):
+        if t["id"] is None:
+            t["id"] = nid[0]
+            nid[0] += 1
+        for c in t["children"]:
+            number(c)
+    number(combined)
+    ids = Doc([combined]).order
+    post = [pipe(["doc 0", "doc 0", "res", "fn", "node %d" % rng.choice(ids)]) for _ in range(rng.choice([2, 3, 4]))]
+    post.append({"start": "doc 0", "via_find": True, "steps": [["S", True, True, [["qn", ["lit", trees[0]["name"]]]]]]})
+    post.append({"start": "fn", "via_find": False, "steps": [["S", True, True, [["qn", ["lit", rng.choice(names)]]]]]})
+    return {"trees": trees, "combined": combined, "pre": pre, "post": post, "mode": mode}
+
+
+def attach(desc, by_id, ident, keep):
+    """the real object for a node of the combined description: existing trees are REUSED (and so re-parented)"""
+    if desc["id"] in by_id:
+        return by_id[desc["id"]]
+    e = Entry(name=desc["name"], attrs=tuple(desc["attrs"]), children=[attach(c, by_id, ident, keep) for c in desc["children"]])
+    ident[id(e)] = desc["id"]
+    keep.append(e)
+    return e
+
+
+def exec_reparent(case, sink):
+    """[(pipeline case, answer, roots-free answer)] for the queries before and after the attachment"""
+    out = []
+    results = {}
+    for history in (True, False):           # queried before being attached / never queried before being attached
+        tops, ident, keep = build_entries(case["trees"])
+        if history:
+            for p in case["pre"]:
+                c = {"start": p["start"], "docs": case["trees"], "steps": p["steps"], "via_find": p["via_find"]}
+                a, plain = run_impl(c, tops, ident)
+                out.append((c, a, plain_ids(plain, ident)))
+            for e in _all_entries(tops):     # any .root access
+                e.root
+            Result(children=list(_all_entries(tops))).roots
+        by_id = dict((ident[id(e)], e) for e in tops)
+        top = attach(case["combined"], by_id, ident, keep)
+        answers = []
+        for p in case["post"]:
+            c = {"start": p["start"], "docs": [case["combined"]], "steps": p["steps"], "via_find": p["via_find"]}
+            a, plain = run_impl(c, [top], ident)
+            answers.append((c, a, plain_ids(plain, ident)))
+        results[history] = answers
+    for (c, a, pl), (_c, a2, _pl) in zip(results[True], results[False]):
+        if a != a2:
+            sink.failure("after re-parenting, a forest that was queried before gives %s, the identically built one that was "
+                         "never queried gives %s: %s %s" % (a, a2, c["start"], json.dumps(c["steps"], ensure_ascii=True)))
+            a = "!queried-before=%s|fresh=%s" % (a, a2)
+        out.append((c, a, pl))
+    return out
+
+
 # --------------------------------------------------------------------------- run
 
 def case_key(case):
@@ -1956,6 +2066,27 @@ def run(chk):
             chk.sample({"provenance": {"style": flat_cases[0][1]["style"], "pipes": flat_cases[0][1]["pipes"],
                                        "order": flat_cases[0][1]["order"]}, "impl": flat_impl[0]})
 
+    # ---- stream 2d: histories query -> re-parent -> query (.root follows the current parent chain)
+    n_rep = 400 if quick else 8000
+    for lo in range(0, n_rep, 2000):
+        flat, impl = [], []
+        for _ in range(min(2000, n_rep - lo)):
+            rc = gen_reparent_case(rng)
+            sink = _CaseSink(chk, "reparent", rc)
+            for c, a, pl in exec_reparent(rc, sink):
+                flat.append((c, rc))
+                impl.append(a)
+                if not a.startswith("!"):
+                    oracle_select(sink, c, a, pl)
+            chk.case(hash(case_key(rc)), True)
+            chk.count("reparent:forests")
+            chk.count("reparent:mode-%s" % rc["mode"])
+        model = model_sel([c for c, _ in flat])
+        chk.compare("histories:query, re-parent, query", flat, impl, model, show=lambda x: {"kind": "reparent", "case": x[1]})
+        chk.count("reparent:queries", len(flat))
+        if lo == 0 and flat:
+            chk.sample({"reparent": {"mode": flat[0][1]["mode"], "pre": flat[0][1]["pre"], "post": flat[0][1]["post"]}, "impl": impl[:6]})
+
     # ---- stream 2b: histories with shared sub-expressions (combinations are values)
     n_hist = 250 if quick else 3000
     for lo in range(0, n_hist, 500):
@@ -2044,9 +2175,21 @@ def replay(data):
     if isinstance(c, dict) and "kind" in c and "case" in c:
         kind, c = c["kind"], c["case"]
     else:
-        kind = data.get("kind") if data.get("kind") in ("bool", "sel", "prog", "prov") else ("bool" if "b" in c else "sel")
+        kind = data.get("kind") if data.get("kind") in ("bool", "sel", "prog", "prov", "reparent") else ("bool" if "b" in c else "sel")
     rec = _Rec()
-    if kind == "prov":
+    if kind == "reparent":
+        print("replaying query -> re-parent (%s) -> query history" % c["mode"])
+        got = exec_reparent(c, rec)
+        model = model_sel([x for x, _a, _p in got])
+        for (x, a, pl), m in zip(got, model):
+            print("  ", "combined" if x["docs"] is not c["trees"] and len(x["docs"]) == 1 and x["docs"][0] is c["combined"] else "standalone",
+                  x["start"], json.dumps(x["steps"], ensure_ascii=True)[:140])
+            print("     impl %s   model %s" % (a, m))
+            if a != m:
+                rec.fails.append(("answer differs from the model's (the tree as it is at this query)", None))
+            if not a.startswith("!"):
+                oracle_select(rec, x, a, pl)
+    elif kind == "prov":
         print("replaying provenance case: style=%s, %d pipelines, call order %s" % (c["style"], len(c["pipes"]), c["order"]))
         answers, plains = exec_prov(c, rec)
         model = model_sel(prov_pipes(c))
